@@ -417,3 +417,21 @@ def run(repo, rep, tier):  # noqa: F811 -- round 7: type-level helper contracts 
 _ADDR7TP = " Borrowed: R02.8 / R02.9 (the type predicates and type-level helpers, interpreted from their own source over the catalogue types and a reference table, answer as the dispatch model and the documentation say)."
 EXPLANATION += _ADDR7TP
 LEVEL_TEXT += _ADDR7TP
+
+
+_run_before_r7a = run
+
+
+def run(repo, rep, tier):  # noqa: F811 -- round-7 remedies / borrowings
+    _run_before_r7a(repo, rep, tier)
+    if getattr(rep, "borrowed", False):
+        return
+    from ..core import round6 as _r6r7
+    from ..core import round7 as _r7
+    _r6r7.element_positions_nullable(repo, rep, "R05.15")
+    _r7.literal_conditions_guarded(repo, rep, "R11.15")
+
+
+_ADD_R7A = ' R11.15: in the Literal unpacker a condition that splices a converter expression (a Registry.get result, which raises on foreign input) sits inside an emitted `try:`; comparisons over the raw value need none. Borrowed: R05.15 (no site forces could_be_none=False for a union member / element).'
+EXPLANATION += _ADD_R7A
+LEVEL_TEXT += _ADD_R7A
